@@ -80,6 +80,15 @@ def parseFinal (t : String) : Option FinalJob :=
   | [a, s, b] => a.toNat?.map fun n => ⟨n, s, b⟩
   | _ => none
 
+/-- trace fact the models take for granted: a process writes the shared files (events h20 / h21 of `WRITE_JOBS`) only between taking the
+    lock (h11) and releasing it (h16).  A write outside is a step the model does not have: reported as a divergence. -/
+def writesUnderLock (evs : List Ev) : Bool :=
+  (evs.foldl (fun (st : List Nat × Bool) (e : Ev) =>
+      if e.what == "h11" then (e.p :: st.1, st.2)
+      else if e.what == "h16" then (st.1.erase e.p, st.2)
+      else if e.what.startsWith "h20" || e.what.startsWith "h21" then (st.1, st.2 && st.1.contains e.p)
+      else st) ([], true)).2
+
 def handleRun (args : List String) : Verdict :=
   match args with
   | ps :: js :: cs :: _mx :: cp :: _ca :: "|" :: rest =>
@@ -98,7 +107,8 @@ def handleRun (args : List String) : Verdict :=
       let r := replay c J evs
       let modelExec := r.s.execLog
       let tornRun := (crashInfo.splitOn "file-torn").length > 1
-      let agree := tornRun || (r.err.isNone && modelExec == execs)
+      let wlock := writesUnderLock evs
+      let agree := wlock && (tornRun || (r.err.isNone && modelExec == execs))
       -- clauses on the trace
       let jobsRun := execs.map (·.2)
       let onceOk := jobsRun.eraseDups.length == jobsRun.length
@@ -123,7 +133,7 @@ def handleRun (args : List String) : Verdict :=
       let resultOk := resultOk || (fileTorn && crashOk)
       let ok := !stuck && excOk && onceOk && lockOk && listOk && resultOk && allDone && crashOk
       { agree := agree, propOk := ok,
-        msg := if ok then (r.err.getD s!"model executions {modelExec} differ from the trace {execs}")
+        msg := if ok then (if !wlock then "C10-WRITE-OUTSIDE-LOCK a process wrote the job file or its back-up while not holding the lock (no such step in the model)" else r.err.getD s!"model executions {modelExec} differ from the trace {execs}")
                else s!"stuck={stuck} exceptions={excs.length} assignedOnce={onceOk} lockExclusive={lockOk} fileListsEveryJobOnce={listOk} resultsKept={resultOk} noneLost={allDone} oneCompleteAtCrash={crashOk} ({crashInfo}) executed={execs}",
         tag := s!"run:P{P}:{if crashProc ≥ 0 && !noCrash then "crash:" ++ ((crashInfo.splitOn ":").headD "") else "nocrash"}:cache{c}:{if J < P then "fewer-jobs-than-procs" else "jobs"}" }
     | _, _, _, _ => bad "run header"
@@ -239,7 +249,8 @@ def handleRRun (args : List String) : Verdict :=
       let r := replay cfg frule J hist evs
       let finals := r3.drop 1
       let modelFinal := (List.range J).map fun j => recTok j (r.s.disk j)
-      let agree := r.err.isNone && r.s.execLog == execs && modelFinal == finals
+      let wlock := writesUnderLock evs
+      let agree := wlock && r.err.isNone && r.s.execLog == execs && modelFinal == finals
       -- the clauses, on the trace and the final file only
       -- (1) results kept: an executed job carries exactly what its last executor reported; an untouched job its historical record
       let specFinal := (List.range J).map fun j =>
@@ -259,7 +270,7 @@ def handleRRun (args : List String) : Verdict :=
       let unlimited := (List.range P).any fun p => (cfg p).maxjobs ≥ 1000
       let allDone := !unlimited || (List.range J).all fun j => kinds.getD j 0 != 0 || execs.any fun (q : Nat × Nat) => q.2 == j
       let ok := !stuck && excs.isEmpty && resultOk && restartOk && maxOk && allDone
-      let msg : String := if ok then (r.err.getD s!"model final {modelFinal} / executions {r.s.execLog} differ from the run: {finals} / {execs}")
+      let msg : String := if ok then (if !wlock then "C10-WRITE-OUTSIDE-LOCK a process wrote the job file or its back-up while not holding the lock (no such step in the model)" else r.err.getD s!"model final {modelFinal} / executions {r.s.execLog} differ from the run: {finals} / {execs}")
                     else s!"C10-RESTART stuck={stuck} exceptions={excs.length} resultsKept={resultOk} restartExactly={restartOk} maxjobs={maxOk} noneLost={allDone} expected={specFinal} file={finals} executed={execs}"
       let tag : String := s!"rrun:P{P}:{if fr == "1" then "failures" else "nofail"}:{if cfgs.any (fun c => c.2.2 != 0) then "pattern" else "nopattern"}:{if cfgs.any (fun c => c.2.1 < 1000) then "maxjobs" else "nolimit"}"
       some ({ agree := agree, propOk := ok, msg := msg, tag := tag } : Verdict)
